@@ -81,6 +81,13 @@ def decorations(spec):
                     s["funcs"][i][kind] = {p: "d" + p}
                     s["deco"] = kind
                     yield s
+            if p in prod:
+                # a signature default on a parameter that IS produced upstream: the upstream value wins, the default only
+                # matters when the producer is cut away by supplying ... nothing (it never replaces the computed value)
+                s = copy.deepcopy(spec)
+                s["funcs"][i]["sigdef"] = {p: "d" + p}
+                s["deco"] = "sigdef-on-produced"
+                yield s
             s = copy.deepcopy(spec)
             s["funcs"][i]["bound"] = {p: "b" + p}
             s["deco"] = "bound-root" if p not in prod else "bound-upstream"
